@@ -14,6 +14,11 @@
     inventory id, :925-936), E081 (object newer than the storage root, only with a root
     version), E108 (content directory containing a path separator: a segment has none),
     a fixity block naming sha256/sha512 being overridden by a version inventory (:1798).
+    A symlink is a leaf of the abstract tree: WalkDir follows a symlink that is the ROOT of a
+    listing, so the real validator still sees the files below a symlinked content or version
+    directory where the model reports them missing (E092); the link itself is E090 in both,
+    the verdict is the same.  A run in which serde::parse PANICS (C17 known findings, e.g.
+    uri-colon-segment) has no verdict and is outside this model, which describes runs that return.
 
     No proofs here. *)
 
